@@ -9,6 +9,16 @@ rnd, base = int(sys.argv[1]), sys.argv[2]
 only = [a.upper() for a in sys.argv[3:]]
 
 FLAVOUR = {
+    6: ("Produce a change of a DIFFERENT kind from all of those, in one of these styles: (i) a different ACCESS PATH to the same result: a public "
+        "method / property / operator / optional argument of the anchored classes that callers may legitimately use instead of the usual one "
+        "(another getter, a cached list, __eq__ / __hash__ / __str__ / duplicate(), a keyword argument, a default value, returning a string vs "
+        "writing a file) and that now gives a different answer than the usual path; (ii) a SIZE threshold: the change only matters once there "
+        "are more elements than small examples have (more than ~8 rectangles / cells / modules / literals / nets, a deeper recursion, a longer "
+        "chain, a larger grid), e.g. an off-by-one in chunking, a recursion cut-off, a quadratic shortcut with a wrong bound; (iii) an exact TIE "
+        "or boundary at ordinary values: two quantities exactly equal (a ratio exactly at the threshold, an aspect ratio exactly at the limit, "
+        "equal areas, equal coordinates, a weight of exactly 1 or 1.0, zero overlap), where < vs <= or the choice among equals matters; (iv) "
+        "FILE-based input / output (a path instead of a string: relative path, a name with spaces or a dot, an existing file being overwritten, "
+        "a file without trailing newline, an empty file). Avoid changes whose only effect is at absurd numeric scales (1e-10 or 1e+10)."),
     5: ("Produce a change of a DIFFERENT kind from all of those, in one of these styles: (i) a change in a shared helper OUTSIDE the anchored "
         "functions that the anchored mechanism relies on (frame/utils, the Point / Shape / BoundingBox / AspectRatio classes, "
         "frame/netlist/netlist_types.py, keyword tables, tools' small helper functions); (ii) a change that only shows for particular numeric "
